@@ -159,6 +159,15 @@ func groupsFor(l *Ledger, val string, now timeT) []*redelGroup {
 // module does (known-defect model Q'): floor(f*recordBalance) tokens converted at the destination
 // validator's current rate, capped at the position. Returns the positions touched.
 func (st *ShareState) SlashRedelegationsAsImplemented(groups []*redelGroup, f *big.Rat) []PosKey {
+	touched, _ := st.SlashRedelegationsAsImplementedAmb(groups, f)
+	return touched
+}
+
+// ...Amb additionally reports the (validator|denom) pairs where the whole-position-or-not decision
+// falls inside the 18-digit rounding error of the module's tokens-to-shares quotient, so that both
+// outcomes are legitimate for the as-implemented model.
+func (st *ShareState) SlashRedelegationsAsImplementedAmb(groups []*redelGroup, f *big.Rat) ([]PosKey, map[string]bool) {
+	amb := map[string]bool{}
 	var touched []PosKey
 	for _, g := range groups {
 		p := PosKey{Del: g.Del, Val: g.Dst, Denom: g.Denom}
@@ -182,6 +191,11 @@ func (st *ShareState) SlashRedelegationsAsImplemented(groups []*redelGroup, f *b
 			x = rmul(rquo(D, K), t)
 		}
 		diff := rabs(rsub(s, x))
+		// the module computes x with an 18-digit quotient: absolute error up to t*10^-18 (and the same again for K)
+		errX := rmul(t, big.NewRat(4, 1_000_000_000_000_000_000))
+		if rabs(rsub(diff, ratCent)).Cmp(errX) <= 0 || (diff.Cmp(ratCent) >= 0 && diff.Cmp(radd(ratCent, errX)) <= 0) || rabs(rsub(x, s)).Cmp(errX) <= 0 && diff.Cmp(ratCent) >= 0 {
+			amb[g.Dst+"|"+g.Denom] = true
+		}
 		switch {
 		// rounding margin: below 0.01 share and (D > 0) also worth less than 0.01 token
 		case diff.Cmp(ratCent) < 0 && (D.Sign() == 0 || rmul(rquo(diff, D), K).Cmp(ratCent) < 0):
@@ -200,7 +214,7 @@ func (st *ShareState) SlashRedelegationsAsImplemented(groups []*redelGroup, f *b
 		}
 		touched = append(touched, p)
 	}
-	return touched
+	return touched, amb
 }
 
 // tolOf is the tolerance the properties state: one base unit plus the relative error of
